@@ -71,7 +71,29 @@ where
     let x_of = |b: &Value, st: usize| -> Vec<f64> { nums(&b["steps"][st]["xstart"]).iter().map(|v| *v as f64 / scale).collect() };
     let init: Vec<Vec<T>> = rows.iter().map(|b| x_of(b, 0).iter().map(|v| T::from(*v).unwrap()).collect()).collect();
     let eps = 2f64.powi(-(e as i32));
-    let mut hmc = HMC::<T, B, Quad>::new(Quad { a: a as f64 }, init, T::from(eps).unwrap(), l);
+    // `step_size` and `n_leapfrog` are public fields -- the only way to re-tune a sampler this crate offers -- and HMC.tla's E and L
+    // are their values WHEN THE STEP IS TAKEN: every second group is replayed on a sampler built with other values and re-tuned
+    // by assignment before its first step (anything derived from them at construction time would be stale)
+    static RETUNE: std::sync::atomic::AtomicUsize = std::sync::atomic::AtomicUsize::new(0);
+    let retune = RETUNE.fetch_add(1, std::sync::atomic::Ordering::Relaxed) % 2 == 1;
+    let mut hmc = if retune {
+        // ... and `positions` is public too: the sampler first makes one throw-away transition somewhere else (whatever it carries
+        // from step to step is stale afterwards) and is then put on the behaviour's start by assignment
+        let shifted: Vec<Vec<T>> = init.iter().map(|r| r.iter().map(|v| *v + T::one()).collect()).collect();
+        let mut h = HMC::<T, B, Quad>::new(Quad { a: a as f64 }, shifted, T::from(eps * 4.0).unwrap(), l + 2);
+        mini_mcmc::verif::push_hmc_momenta(vec![0.25; n * dim]);
+        mini_mcmc::verif::push_hmc_uniforms(vec![0.5; n]);
+        let _ = catch(|| h.step());
+        h.step_size = T::from(eps).unwrap();
+        h.n_leapfrog = l;
+        let flat: Vec<T> = init.iter().flatten().cloned().collect();
+        let dev = h.positions.device();
+        h.positions = Tensor::<B, 2>::from_data(TensorData::new(flat, [n, dim]), &dev);
+        h
+    } else {
+        HMC::<T, B, Quad>::new(Quad { a: a as f64 }, init, T::from(eps).unwrap(), l)
+    };
+    let label = &(if retune { format!("{label} re-tuned by assignment") } else { label.to_string() });
     let up = 2f64.powi((s - g0_k(g0)) as i32);
     let _ = up;
     for st in 0..nsteps {
